@@ -140,7 +140,7 @@ func checkC08(w *World, r *Report) {
 	r.Rule("TIME-POL", "time comparisons have the stated accept tables", 6)
 	r.Rule("TIME-REL", "an instalment is released exactly when due and not yet released", 1)
 	r.Rule("OPEN-GUARD", "bids are committed only while the auction is Started", 2)
-	r.Rule("FINISH-LAST", "finishing needs the last instalment", 1)
+	r.Rule("FINISH-LAST", "finishing needs the last instalment", 2)
 	r.Rule("BB-BEGIN", "status processing runs in BeginBlock, before the block's messages", 1)
 	tm := NewTerms(w)
 	ms := w.msgServerMethods()
@@ -153,6 +153,9 @@ func checkC08(w *World, r *Report) {
 	r.Check(decl == bb, "BB-BEGIN", "BeginBlock:runs-status-processing", w.pos(decl.Pos()),
 		"the module's BeginBlock (appmodule.HasBeginBlocker) reaches the keeper's per-auction processing",
 		"the per-auction processing is not reached from BeginBlock (it is run from "+fnName(bb)+"): status changes take effect only after the block's transactions, so a message in the first block at or after the start/end time still sees the old status (an auction can be cancelled after its start time, a bid is accepted after the end time)")
+
+	checkEveryAuction(w, r, tm, "BB-EVERY")
+	checkModuleIface(w, r, "MOD-IFACE", "BeginBlock")
 
 	allowed := map[[2]int64]bool{{stStandBy, stStarted}: true, {stStarted, stVesting}: true, {stStarted, stFinished}: true, {stVesting, stFinished}: true, {stStandBy, stCancelled}: true}
 	seen := map[[2]int64]bool{}
@@ -366,6 +369,35 @@ func checkC08(w *World, r *Report) {
 		what: "Vesting→Finished is written only while releasing the last instalment of the list", commit: isStatusWriteTo(stFinished), commitTxt: "the Finished status write",
 		cases: flCases, atoms: []string{"pair0"}, consequence: "the auction finishes before its last instalment is paid (later instalments are never released) or never finishes"})
 	_ = token.ADD
+	// "the last of the list" means the last instalment of the auction only if the list is the auction's whole queue in
+	// key (= release time) order: every read of the queue in block processing is the plain walk over the auction's
+	// prefix, not one narrowed to a time window or reversed
+	nq := 0
+	for _, s := range tm.sitesWhere([]*ssa.Function{bb}, func(fr *Frame, in ssa.Instruction) bool {
+		e := w.EffectOf(in)
+		return e != nil && e.Kind == EffStoreRead && e.Coll == "VestingQueue" && (e.Method == "Walk" || e.Method == "Iterate" || e.Method == "IterateRaw")
+	}) {
+		args := s.In.(ssa.CallInstruction).Common().Args
+		if len(args) < 3 {
+			continue
+		}
+		nq++
+		ok, why := true, ""
+		if c, isC := args[2].(*ssa.Const); !(isC && c.Value == nil) {
+			rt := tm.OperandAt(s.Fr, s.In, args[2])
+			for _, alt := range rt.Alts() {
+				a := uncell(alt)
+				for (a.Op == "deref" || a.Op == "allocref" || a.Op == "cellref") && len(a.Args) == 1 {
+					a = uncell(a.Args[0])
+				}
+				if !(a.Op == "call" && strings.Contains(a.Name, "NewPrefixedPairRange")) {
+					ok, why = false, "the queue is read through the range "+rt.String()+": the list is a window of (or is ordered differently from) the auction's queue, so its last element need not be the auction's last instalment — the auction finishes before later instalments are paid, which then never are"
+				}
+			}
+		}
+		r.Check(ok, "FINISH-LAST", fmt.Sprintf("complete-queue:%s#%d", fnName(s.In.Parent()), nq), w.instrPos(s.In),
+			"block processing reads the auction's whole vesting queue in key order (plain prefix walk)", why)
+	}
 }
 
 // relAllRule: per loop iteration, once the tracked "due" comparison has been evaluated (raDue), the iteration must
